@@ -262,6 +262,13 @@ def gen_cases(ctx, scale=1.0):
     n_random = int(ctx.pick(200, 5000) * scale)
     for _ in range(n_random):
         cases.append(gen_case(rng, tier_big=ctx.thorough()))
+    # every throttle leg on its own, with single writes several times larger than one second's worth of the limit
+    for key in ("srv_read", "srv_write", "cli_read", "cli_write", "user_read_pc", "user_write_pc"):
+        for limit, bs in ((3, 64), (997, 8192)):
+            c = det_case(rng, bs, 3 * limit + 5)
+            c["throttle"] = {k: (limit if k == key else None) for k in ("srv_read", "srv_write", "cli_read", "cli_write", "user_read_pc", "user_write_pc")}
+            c["ops"].append({"op": "down", "offset": 0, "read": 100000, "api": "readall"})
+            cases.append(c)
     # a second session looks at the file (MLST) in the middle of the transfer
     for backend in ("memory", "pathio"):
         for bs in (2, 7, 64):
